@@ -1557,7 +1557,11 @@ class Field(SupportComplexDataType):
 
     def _get_children(self, trailing=False):
         if self.datatype == 'varies':
-            children = [self.children.indexes['VARIES_{0}'.format(i + 1)] for i in xrange(len(self.children))]
+            # components may have been set at any position (obx_5_5 with no obx_5_4): one slot per position up to the last
+            positions = [int(k[7:]) for k, v in iteritems(self.children.indexes)
+                         if v and k.startswith('VARIES_') and k[7:].isdigit()]
+            children = [self.children.indexes.get('VARIES_{0}'.format(i + 1)) or None
+                        for i in xrange(max(positions) if positions else 0)]
             children = _remove_trailing(children)
             children.extend([[c] for c in self.children if c.is_unknown()])
             return children
